@@ -94,7 +94,14 @@ Definition dispatch_duration (name : string) (a : list tok) : option (list tok *
              TZ (v / 1000000000 mod 60); TZ (v / 1000000 mod 1000); TZ (v / 1000 mod 1000); TZ (v mod 1000)])
   | "signum"%string, [TZ c; TZ n] => Some ([TZ (signum (from_parts c n))], nospec)
   | "subdivision"%string, [TZ c; TZ n; TZ u] =>
-      Some (match subdivision (from_parts c n) (unit_of_Z u) with Some d => TZ 1 :: tdur d | None => [TZ 0] end, nospec)
+      Some (match subdivision (from_parts c n) (unit_of_Z u) with Some d => TZ 1 :: tdur d | None => [TZ 0] end,
+            (* the component of the decomposition that belongs to the unit, as a duration; none for weeks and centuries *)
+            let a := Z.abs (pval c n) in
+            match u with
+            | 0 => TZ 1 :: sdur (a mod 1000) | 1 => TZ 1 :: sdur (a / 1000 mod 1000 * 1000) | 2 => TZ 1 :: sdur (a / 1000000 mod 1000 * 1000000)
+            | 3 => TZ 1 :: sdur (a / 1000000000 mod 60 * 1000000000) | 4 => TZ 1 :: sdur (a / 60000000000 mod 60 * 60000000000)
+            | 5 => TZ 1 :: sdur (a / 3600000000000 mod 24 * 3600000000000) | 6 => TZ 1 :: sdur (clamp (a / 86400000000000 * 86400000000000))
+            | 7 | 8 => [TZ 0] | _ => nospec end)
   | "eq_unit"%string, [TZ c; TZ n; TZ u] =>
       let va := pval c n in let vb := suf u in
       Some ([tb (dur_eq_unit (from_parts c n) (unit_of_Z u))], [tb ((va =? vb) || ((Z.abs va <? SNPC) && (va =? - vb)))])
@@ -184,9 +191,20 @@ Definition dispatch_epoch (name : string) (a : list tok) : option (list tok * li
             else match sinstant t1 (pval c1 n1), sinstant t2 (pval c2 n2) with
                  | Some i, Some j => [tb (i =? j)] | _, _ => nospec end)
   | "emin"%string, [TZ c1; TZ n1; TZ t1; TZ c2; TZ n2; TZ t2] =>
-      Some (topt tepoch (epoch_min (mk_epoch c1 n1 t1) (mk_epoch c2 n2 t2)), nospec)
+      let t1 := norm_ts t1 in let t2 := norm_ts t2 in
+      Some (topt tepoch (epoch_min (mk_epoch c1 n1 t1) (mk_epoch c2 n2 t2)),
+            (* the chronologically earlier operand, as it was given; open when they denote the same instant *)
+            match (if t1 =? t2 then Some (pval c1 n1, pval c2 n2) else
+                   match sinstant t1 (pval c1 n1), sinstant t2 (pval c2 n2) with Some i, Some j => Some (i, j) | _, _ => None end) with
+            | Some (i, j) => if i <? j then sdur (pval c1 n1) ++ [TZ t1] else if j <? i then sdur (pval c2 n2) ++ [TZ t2] else nospec
+            | None => nospec end)
   | "emax"%string, [TZ c1; TZ n1; TZ t1; TZ c2; TZ n2; TZ t2] =>
-      Some (topt tepoch (epoch_max (mk_epoch c1 n1 t1) (mk_epoch c2 n2 t2)), nospec)
+      let t1 := norm_ts t1 in let t2 := norm_ts t2 in
+      Some (topt tepoch (epoch_max (mk_epoch c1 n1 t1) (mk_epoch c2 n2 t2)),
+            match (if t1 =? t2 then Some (pval c1 n1, pval c2 n2) else
+                   match sinstant t1 (pval c1 n1), sinstant t2 (pval c2 n2) with Some i, Some j => Some (i, j) | _, _ => None end) with
+            | Some (i, j) => if j <? i then sdur (pval c1 n1) ++ [TZ t1] else if i <? j then sdur (pval c2 n2) ++ [TZ t2] else nospec
+            | None => nospec end)
   | "leap"%string, [TZ c; TZ n; TZ t] =>
       (* Epoch::leap_seconds_iers of an epoch: table lookup at its TAI duration *)
       let t := norm_ts t in
@@ -696,6 +714,12 @@ Definition dispatch_parse (name : string) (a : list tok) : option (list tok * li
             match spec_fields t (pval c n) with
             | Some (y, _, _, _, _, _, _) => if (1 <=? y) && (y <=? 9999) then TZ 1 :: sdur (pval c n) ++ [TZ t] else nospec
             | None => nospec end)
+  (* Duration::from_str against the value the text denotes; the expected value (an exact rational num / den ns, computed by the case
+     generator from the documented grammar) comes with the case; den = 0 means "must be rejected" *)
+  | "p_dur_v"%string, [TL str_; TZ num; TZ den; TZ tol] =>
+      Some (match duration_from_str str_ with
+            | POk d => [TZ 1; TZ (val d)] | PErr k => [TErr k] | PPanic => [TPanic] | PUnmodelled => nospec end,
+            if den =? 0 then [TErrAny] else [TZ 1; TRange (num / den - tol) (num / den + 1 + tol)])
   | "rt_dur"%string, [TZ c; TZ n] =>
       Some (tpres tdur (duration_from_str (display_duration (from_parts c n))),
             if Z.abs (pval c n) <=? 320000000000000000000 then TZ 1 :: sdur (pval c n) else nospec)
